@@ -54,9 +54,7 @@ Definition idem_check (j : json) : bool :=
   | POk (p, t) =>
       match parse_schema (fuel_for p) p [] with
       | POk (p2, t2) =>
-          json_eqb p2 p &&
-          (* a marked result carries the table; an unmarked one (no record at the top) is re-parsed *)
-          (named_eqb t2 t || negb (list_eqb String.eqb (keys t2) (keys t)) && false || list_eqb String.eqb (keys t2) (keys t))
+          json_eqb p2 p && list_eqb String.eqb (keys t2) (keys t)
       | _ => false
       end
   | _ => true
